@@ -7,7 +7,8 @@ LEVEL = ("Mechanism level (dispatch and shape of the small total selection funct
          "try_jvalue_with_field_name call slice::get / map::get with exactly their parameter on the Array / Object arm only "
          "and fail otherwise; select_by_jvalue maps String -> field, Number -> index via try_number_to_u32, anything else -> "
          "error; .length is as_array()?.len(); every failure exit is a LambdaError wrapped into a Catchable error. Value "
-         "agreement for all JSON x paths is NOT decided.")
+         "agreement for all JSON x paths is NOT decided."
+         " Added: both scalar kinds select through select_by_jvalue; map-key constructors classify numbers alike; try_number_to_u32 = as_u64 + try_from only.")
 
 
 def check(ctx):
